@@ -90,7 +90,7 @@ def contracts(repo):
     return items
 
 
-def session(ops, depth, multiple, tags, max_bytes=None):
+def session(ops, depth, multiple, tags, max_bytes=None, fragment=False):
     from . import netsim
     from cpppo.server.enip import client
     out = []
@@ -98,9 +98,14 @@ def session(ops, depth, multiple, tags, max_bytes=None):
         try:
             with client.connector(host='127.0.0.1', port=srv.port, timeout=3.0) as conn:
                 assert conn.session, 'Register Session returned no session handle'
-                for idx, dsc, op, rpy, sts, val in conn.pipeline(operations=client.parse_operations(ops), depth=depth,
-                                                                 multiple=multiple, timeout=3.0):
+                mismatched = []
+                for idx, dsc, op, rpy, sts, val in conn.pipeline(operations=client.parse_operations(ops, fragment=fragment), depth=depth,
+                                                                 multiple=multiple, fragment=fragment, timeout=3.0):
                     out.append((sts if not isinstance(sts, tuple) else sts[0], val))
+                    if rpy is not None and 'service' in op and rpy.get('service') != (op.service | 0x80):
+                        mismatched.append('request %d (service 0x%02x) delivered with reply service %r' % (idx, op.service, rpy.get('service')))
+                if mismatched:
+                    out.append(('mismatched', mismatched[0]))
         except Exception as e:
             out.append(('session ended', type(e).__name__, str(e)[:60]))
         errs = list(srv.errors)
@@ -147,22 +152,26 @@ def bounded(tier, seed):
     samples = []
     tags = {'A': ('INT', 10), 'B': ('DINT', 4)}
     model = {'A': [0] * 10, 'B': [0] * 4}
-    pool = ['A[0-2]', 'A[9]', 'A[1]=5', 'A[2-3]=7,8', 'B[0-3]', 'B[1]=(DINT)70000', 'A[8-12]', 'A[10]', 'A[3]=(DINT)1', 'A[0-9]']
+    # (reads and writes that succeed, and ones the simulator answers with each of its failure statuses: 0xFF + extended word for a range / type error,
+    # 0x05 + extended word for an attribute that does not exist in an existing object)
+    pool = ['A[0-2]', 'A[9]', 'A[1-1]=5', 'A[2-3]=7,8', 'B[0-3]', 'B[1-1]=(DINT)70000', 'A[8-12]', 'A[10]', 'A[3-3]=(DINT)1', 'A[0-9]', '@2/1/99', '@2/1/98[0-0]=(INT)1']
     rounds = 6 if tier == 'quick' else 40
     for r in range(rounds):
         if len(violations) >= 5:
             break
         ops = [rng.choice(pool) for _ in range(rng.choice([1, 3, 6, 10]))]
+        if r == 0:
+            ops = ['A[0]', 'A[1-2]', '@2/1/99', 'A[3]', 'A[10]', 'A[4-6]']        # failing requests between succeeding ones, every failure status
         ref, errs0 = session(ops, 1, 0, tags)
-        for depth, multiple in ((1, 0), (3, 0), (10, 0), (2, 250)):
+        for depth, multiple, fragment in ((1, 0, False), (3, 0, False), (10, 0, False), (2, 250, False), (1, 0, True), (3, 0, True), (2, 250, True)):
             ev += 1
-            got, errs = session(ops, depth, multiple, tags)
-            distinct.add((tuple(ops), depth, multiple))
+            got, errs = session(ops, depth, multiple, tags, fragment=fragment)
+            distinct.add((tuple(ops), depth, multiple, fragment))
             if len(got) != len(ops):
-                violations.append(dict(key='pipeline ops=%r depth=%d multiple=%d' % (ops, depth, multiple), observed=repr(got)[:300],
+                violations.append(dict(key='pipeline ops=%r depth=%d multiple=%d fragment=%r' % (ops, depth, multiple, fragment), observed=repr(got)[:300],
                                        required='exactly one result per operation (%d)' % len(ops)))
             elif got != ref:
-                violations.append(dict(key='pipeline ops=%r depth=%d multiple=%d' % (ops, depth, multiple), observed=repr(got)[:300],
+                violations.append(dict(key='pipeline ops=%r depth=%d multiple=%d fragment=%r' % (ops, depth, multiple, fragment), observed=repr(got)[:300],
                                        required='results in operation order equal to the synchronous ones %r' % (ref,)))
             if errs:
                 violations.append(dict(key='server thread error ops=%r' % (ops,), observed=repr(errs)[:300], required='no handler failure'))
